@@ -120,7 +120,11 @@ def collections(np, ss, equal):
            "list_of_array": ([array.array("d", s) for s in ss], ("py", "c")),
            "list_of_np": ([np.array(s, dtype=float) for s in ss], ("py", "c")),
            "tuple_of_np": (tuple(np.array(s, dtype=float) for s in ss), ("py", "c")),
-           "list_of_strided": ([np.repeat(np.array(s, dtype=float), 2)[::2] for s in ss], ("py", "c"))}
+           "list_of_strided": ([np.repeat(np.array(s, dtype=float), 2)[::2] for s in ss], ("py", "c")),
+           # series of different types in one list (accepted element by element by SeriesContainer)
+           "list_mixed_types": ([(array.array("d", s) if i_ % 2 else np.array(s, dtype=float)) for i_, s in enumerate(ss)], ("py", "c")),
+           "list_mixed_types_array_first": ([(np.array(s, dtype=float) if i_ % 2 else array.array("d", s)) for i_, s in enumerate(ss)],
+                                            ("py", "c"))}
     if equal:
         m = np.array(ss, dtype=float)
         out["matrix_C"] = (m, ("py", "c"))
